@@ -232,7 +232,7 @@ func expectJoin(s *Scenario, withMeta bool, j Join) (exp []expTag, zeroBase bool
 }
 
 type caseStats struct {
-	key, ptsNeDts, ptsBack, big, tiny, boundary, older, first32, ext24 bool
+	key, ptsNeDts, ptsBack, big, tiny, boundary, older, first32, ext24, aacHdr bool
 	views                                                              int
 	gopJoin, midJoin                                                   bool
 }
@@ -287,6 +287,9 @@ func runScenario(s *Scenario) (*failure, caseStats) {
 		}
 		if st.Ext24 {
 			cs.ext24 = true
+		}
+		if st.AACHeaderNotAF {
+			cs.aacHdr = true
 		}
 		return fl
 	}
@@ -388,7 +391,7 @@ func record(s *Scenario, cs caseStats) {
 	for name, on := range map[string]bool{
 		"has-key-frame": cs.key, "pts!=dts": cs.ptsNeDts, "pts<dts": cs.ptsBack, "nal>64KiB": cs.big, "nal-minimal-size": cs.tiny,
 		"time-boundary-crossed": cs.boundary, "older-than-origin-tag": cs.older, "first-tag-ms=2^32-1": cs.first32,
-		"join-with-cached-gop": cs.gopJoin, "timestamp-extended-byte-written": cs.ext24, "join-mid-stream": cs.midJoin,
+		"join-with-cached-gop": cs.gopJoin, "timestamp-extended-byte-written": cs.ext24, "observed:aac-tag-header-not-0xAF(not judged)": cs.aacHdr, "join-mid-stream": cs.midJoin,
 	} {
 		if on {
 			evid.Class(name)
